@@ -1,0 +1,15 @@
+//go:build verif
+
+package file
+
+// VerifCrashHook, when set, is called after every file write, sync, remove and open of the file
+// store and between the steps of SaveMessage, setSeqNum, setSession, Reset and Refresh with a
+// label and the file concerned (build tag "verif" only), so that a harness can snapshot the
+// store directory and track which bytes were synced.
+var VerifCrashHook func(label, file string)
+
+func verifCrashPoint(label, file string) {
+	if h := VerifCrashHook; h != nil {
+		h(label, file)
+	}
+}
